@@ -81,7 +81,7 @@ pub fn runnable(spec: &QueueSpec, shape_known: bool, d: Demand) -> bool {
     match d {
         Demand::None => false,
         Demand::Sn(k) => k > 0,
-        Demand::Mn(n) => spec.mwpa >= n,
+        Demand::Mn(n) | Demand::Mns(_, n) => spec.mwpa >= n,
         Demand::Gpu => spec.gpus || !shape_known,
         Demand::Long(s) => s <= spec.timelimit_s,
     }
@@ -327,7 +327,7 @@ impl Monitor {
                                     need > queued_workers
                                 }
                                 Demand::Gpu | Demand::Long(_) => queued_workers == 0,
-                                Demand::Mn(n) => !queued.iter().any(|a| a.target_worker_count >= n as u64),
+                                Demand::Mn(n) | Demand::Mns(_, n) => !queued.iter().any(|a| a.target_worker_count >= n as u64),
                             };
                             let room = (queued.len() as u32) < spec.backlog
                                 && spec.max_workers.map(|m| active_workers < m as u64).unwrap_or(true);
